@@ -37,7 +37,9 @@ func init() {
 					"C41-F2:Edge.To<->serial.Edge.From", "C41-F2:Edge.To<->serial.Edge.To",
 					"C41-F2:Edge.Note<->serial.Edge.Note",
 				},
-				func(fc *Ctx) { runC41(fc, "testdata/c41/db", "testdata/c41/db/serial", "Store.Persist", "Store.LoadData", 0, 0) })
+				func(fc *Ctx) {
+					runC41(fc, "testdata/c41/db", "testdata/c41/db/serial", "Store.Persist", "Store.LoadData", 0, 0)
+				})
 		},
 		FixturePkgs: []string{"./testdata/c41/db", "./testdata/c41/db/serial"},
 	})
@@ -132,9 +134,9 @@ func runC41(c *Ctx, dbRel, serialRel, persistRoot, loadRoot string, floorF1, flo
 		c.Undecided("C41-F1", "tables", 0, "no flatbuffer tables (type T with TStart/TEnd) found in "+serialRel)
 		return
 	}
-	addOf := map[*types.Func][2]string{}   // TAddF -> (T, F)
-	accOf := map[*types.Func][2]string{}   // any accessor-like method of T -> (T, F), exact accessors only
-	lenOf := map[*types.Func][2]string{}   // FLength (counted for dependence, not for "read")
+	addOf := map[*types.Func][2]string{} // TAddF -> (T, F)
+	accOf := map[*types.Func][2]string{} // any accessor-like method of T -> (T, F), exact accessors only
+	lenOf := map[*types.Func][2]string{} // FLength (counted for dependence, not for "read")
 	tableOfType := map[*types.TypeName]*c41Table{}
 	for _, t := range tables {
 		tableOfType[t.named.Obj()] = t
